@@ -448,7 +448,7 @@ func runC10(c *eng.Ctx) {
 	c.Rule("ORDER", "index{memory read < snapshot}", func() {
 		// the dictionary store picks its snapshot through getSnapshot(), or reads s.snapshot in place (under the read lock)
 		kvSnap := func(p *eng.Prog, in ssa.Instruction) bool {
-			if eng.CallTo(kvsT + ".getSnapshot")(p, in) {
+			if eng.CallTo(kvsT+".getSnapshot")(p, in) {
 				return true
 			}
 			return eng.LoadField(kvsT+".snapshot")(p, in) && in.Parent() != nil && p.FuncKey(in.Parent()) != kvsT+".getSnapshot"
